@@ -298,4 +298,5 @@ def run_case(case, ctx):
         ctx.mark_nontrivial(gen.model_digest(kind, am, ph, extra=[blist, np.round(t, 6)]))
     ctx.seen("kind_n", (kind, n))
     ctx.seen("num_bases", len(blist))
+    gen.scribble_spaces(st, st.num_visible)  # tensors handed out are the caller's: nothing later may depend on them
     ctx.sample({"case": case, "bases": blist, "am": gen.small_params(am), "kl_reference": want_list, "nll_reference": wantb})
